@@ -1004,6 +1004,13 @@ func (pc *PeerConnection) setDescription(sd *SessionDescription, op stateChangeO
 		pc.mu.Lock()
 		defer pc.mu.Unlock()
 
+		// Re-check under the lock that serialises with close(): a description
+		// must not be applied, nor the signaling state changed, once the
+		// connection is closed.
+		if pc.isClosed.Load() {
+			return SignalingStateClosed, &rtcerr.InvalidStateError{Err: ErrConnectionClosed}
+		}
+
 		cur := pc.SignalingState()
 		setLocal := stateChangeOpSetLocal
 		setRemote := stateChangeOpSetRemote
@@ -1090,11 +1097,14 @@ func (pc *PeerConnection) setDescription(sd *SessionDescription, op stateChangeO
 			return nextState, &rtcerr.OperationError{Err: fmt.Errorf("%w: %q", errPeerConnStateChangeUnhandled, op)}
 		}
 
+		if err == nil {
+			pc.signalingState.Set(nextState)
+		}
+
 		return nextState, err
 	}()
 
 	if err == nil {
-		pc.signalingState.Set(nextState)
 		if pc.signalingState.Get() == SignalingStateStable {
 			pc.isNegotiationNeeded.Store(false)
 			pc.mu.Lock()
